@@ -36,7 +36,7 @@ RULE = ("program = constructor variant (arrays / lists / int dtype / strided / r
         " Round-6 classes: every processing method must return the object it was called on (asserted on every applied operation)."
         " Round-7 classes: rare interpolate(n = 66 000..90 000) steps, resampling to the same number of points."
         " Round-8 classes: getter results kept by the caller and handed to a second Weaver are guarded across all later operations; first use of the library from several threads at once with untried Weaver programs.")
-REQUIRED_MONITORS = ["c09:getter_results_kept", "threads:weaver", "threads:first_use:weaver_cold", "threads:first_use_yields_injected", "c09:duplicate", "weaver_invariant", "c09:caller_arrays", "c09:original_unchanged", "c09:restore_differential"]
+REQUIRED_MONITORS = ["c09:caller_edits_his_table", "c09:getter_results_kept", "threads:weaver", "threads:first_use:weaver_cold", "threads:first_use_yields_injected", "c09:duplicate", "weaver_invariant", "c09:caller_arrays", "c09:original_unchanged", "c09:restore_differential"]
 ASSUMPTIONS = ["operations are generated with admissible arguments only; an exception from such an operation is reported",
                "indices-based truncation is only issued while working and reference series are the same samples"]
 NSHARDS = 16
@@ -234,6 +234,25 @@ def run_case(ctx, kind_, idx):
                 guard.add("y(int16)", yi)
                 wv, how = Weaver(xi, yi), "Weaver(int32,int16)"
                 x, y = xi.astype(float), yi.astype(float)
+            elif rng.integers(0, 10) == 0:
+                # read-only views of arrays the CALLER keeps editing (columns of a pandas 3 frame, a view with
+                # flags.writeable = False of a table that is still being filled): the stored original is the data as it
+                # was handed in, whatever the caller does to his own table afterwards
+                xb, yb = np.array(x, dtype=float), np.array(y, dtype=float)
+                xv, yv = xb.view(), yb.view()
+                xv.flags.writeable = False
+                yv.flags.writeable = False
+                wv, how = Weaver(xv, yv), "Weaver(read-only views of the caller's table)"
+                before_edit = [np.array(a).copy() for a in wv.get_original()]
+                yb += 1.0
+                xb[-1] += 0.5
+                ctx.monitor("c09:caller_edits_his_table")
+                ox_, oy_ = wv.get_original()
+                if not (np.array_equal(ox_, before_edit[0]) and np.array_equal(oy_, before_edit[1])):
+                    ctx.violation("original_changed", cid, {"after": "the caller edited the table whose read-only views he had handed in",
+                                                            "program": [how]})
+                    return
+                x, y = before_edit[0].copy(), before_edit[1].copy()
             else:
                 wv, how = construct(rng, x, y, guard)
             prog.append(how)
